@@ -68,6 +68,11 @@ def random_key_walk(rng, cfg, length, note_keys, action_keys, p_action=0.15, exi
         return any(a in acts and b in acts for a, b in PAIRS)
 
     for _ in range(length):
+        if rng.random() < 0.06:     # what the engine must ignore: key repeat of a held key, EV_SYN, EV_MSC, EV_REL
+            kind = rng.choice(["repeat", "syn", "msc", "rel"])
+            if kind != "repeat" or held:
+                walk.append({"ev": "ignored", "kind": kind, "k": rng.choice(sorted(held)) if held else ""})
+                continue
         if held and rng.random() < 0.45:
             k = rng.choice(sorted(held))
             held.discard(k)
@@ -122,6 +127,11 @@ def random_keys(seed, tier):
     batches = []
     for mode in ["off", "no_repeat", "interrupt", "retrigger"]:
         cfg = factory_keyboard_cfg(mode)
+        cfg["vel"] = rng.choice([1, 37, 64, 100, 127])
+        cfg["actions"].update({"KEY_F9": "cc_learning", "KEY_F10": "multinote", "KEY_F8": "mapping", "KEY_F7": "channel"})
+        for m in cfg["maps"]:
+            for k in ("KEY_F7", "KEY_F8", "KEY_F9", "KEY_F10"):
+                m["keys"].pop(k, None)
         allkeys = sorted({k for m in cfg["maps"] for k in m["keys"]} - set(cfg["actions"]))
         # a working set of keys: collisions need keys that share pitches
         walks = []
